@@ -22,7 +22,7 @@ from .. import tablefold as T
 
 PID = "C06"
 FORMS = {"lower": "abc_x", "mixed": "MiXed_Id", "upper": "UPPER_ID", "dq": '"My Col1"'.replace(" ", "_"), "bt": "`bt_name`", "br": "[br_name]", "dqU": '"QUOTED"',
-         "dq_kw": '"desc"', "bt_kw": "`Asc`", "br_kw": "[order]", "dq_kw2": '"Comment"'}
+         "pre1": "collateral_id", "pre2": "Auto_Increment_step", "pre3": "autoincrement_no", "dq_kw": '"desc"', "bt_kw": "`Asc`", "br_kw": "[order]", "dq_kw2": '"Comment"'}
 
 
 def strip1(s):
@@ -49,6 +49,8 @@ POSITIONS = [
     ("pk_list_2nd", "CREATE TABLE t1 (a int, {X} int, PRIMARY KEY (a, {X}));", lambda r: r[0]["primary_key"][1]),
     ("fk_list", "CREATE TABLE t1 (a int, {X} int, FOREIGN KEY (a, {X}) REFERENCES o (x, y));", lambda r: [c["name"] for c in r[0]["columns"] if c["references"]][1]),
     ("ref_column_2nd", "CREATE TABLE t1 (a int, b int, FOREIGN KEY (a, b) REFERENCES o (x, {X}));", lambda r: r[0]["columns"][1]["references"]["column"]),
+    ("inline_key_column", "CREATE TABLE t1 ({X} int, b int, KEY idx1 ({X}));", lambda r: r[0]["index"][0]["columns"][0]),
+    ("inline_key_name", "CREATE TABLE t1 (a int, b int, KEY {X} (a));", lambda r: r[0]["index"][0]["index_name"]),
     ("constraint", "CREATE TABLE t1 (a int, b int, CONSTRAINT {X} PRIMARY KEY (a));", lambda r: r[0]["constraints"]["primary_keys"][0]["constraint_name"]),
     ("constraint_unique", "CREATE TABLE t1 (a int, b int, CONSTRAINT {X} UNIQUE (a, b));", lambda r: r[0]["constraints"]["uniques"][0]["constraint_name"]),
     ("pk_list", "CREATE TABLE t1 ({X} int, b int, PRIMARY KEY ({X}));", lambda r: r[0]["primary_key"][0]),
